@@ -421,6 +421,130 @@ fn snippets_case(cx: &mut CaseCtx, input: Input, cfg: &GenCfg) -> CaseResult {
     Ok(())
 }
 
+/// Text region (start of the first token, prelude included, to the end of the last token) of the
+/// element that `path` names, or of the nearest enclosing element the printer recorded.
+fn region_of(rendered: &[Rendered], path: &str, levels_up: usize) -> Option<(usize, Pos, Pos)> {
+    let fi = file_index(path);
+    let r = rendered.get(fi)?;
+    let mut cur = path.to_owned();
+    let mut up = levels_up;
+    loop {
+        if let Some(e) = r.elems.get(&cur) {
+            if up == 0 {
+                let first = e.prelude_first.unwrap_or(e.first).min(e.first);
+                return Some((fi, r.tok_start(first), r.tok_end(e.last)));
+            }
+            up -= 1;
+        }
+        match cur.rsplit_once('/') {
+            Some((parent, _)) if parent.contains('/') => cur = parent.to_owned(),
+            _ => {
+                // the file itself
+                let last = r.toks.len().checked_sub(1)?;
+                return Some((fi, (1, 1), r.tok_end(last)));
+            }
+        }
+    }
+}
+
+/// (3) A diagnostic about a defect points into the text of the offending element.  Programs with
+/// injected rule violations (C04's catalogue) in free layouts; the reference rule checker says
+/// which element violates which rule, the printer where that element's text is.
+fn diagnostics_case(cx: &mut CaseCtx, input: Input, cfg: &GenCfg) -> CaseResult {
+    use crate::gen::pick;
+    use crate::inject::{inject, CATALOGUE};
+    let (lay_bytes, prog_bytes) = split_input(input.bytes());
+    let mut u = Unstructured::new(prog_bytes);
+    let k = 1 + pick(&mut u, 3);
+    let which: Vec<usize> = (0..k).map(|_| pick(&mut u, CATALOGUE.len())).collect();
+    let (mut p, _labels) = gen_program(&mut u, cfg);
+    for w in which {
+        if inject(&mut p, w, &mut u) {
+            cx.label(format!("inj:{}", CATALOGUE[w % CATALOGUE.len()]));
+        }
+    }
+    p.fill_effective_values();
+    cx.set_key(&(&p, lay_bytes));
+    let report = crate::rules::check_program(&p);
+    let (texts, rendered) = render_layout(&p, lay_bytes, 1);
+    cx.sample_with(|| json!({"files": texts, "violated": report.rules()}));
+    if std::env::var_os("VCHECK_NO_COMPILE").is_some() {
+        return Ok(());
+    }
+    let state = compile_strings(&texts, None);
+    let paths: Vec<String> = state.files.iter().map(|f| f.relative_path.clone()).collect();
+    let diags = diagnostics_of(state, &Default::default());
+    let file_no = |name: &str| paths.iter().position(|p| p == name);
+    let mut judged = 0;
+    for d in &diags {
+        // (1) for diagnostics and notes: inside the file, ordered
+        for (what, sp) in std::iter::once(("diagnostic", &d.span)).chain(d.notes.iter().map(|n| ("note", &n.1))) {
+            if let Some((start, end, file)) = sp {
+                let Some(fi) = file_no(file) else {
+                    fail!(format!("diagnostic-span/unknown-file/{}", d.code), "{what} of {} names file {file:?}", d.code);
+                };
+                let so = SpanObs { start: *start, end: *end, file: file.clone() };
+                well_formed(&so, &line_lengths(&texts[fi]), &format!("f{fi}/{what}/{}", d.code))?;
+            }
+        }
+        if d.level != "error" {
+            continue;
+        }
+        let Some((start, end, file)) = &d.span else { continue };
+        let Some(fi) = file_no(file) else { continue };
+        let mut cands: Vec<crate::rules::Violation> = report.violations.iter().filter(|v| v.code == d.code && !v.at.is_empty()).cloned().collect();
+        if d.code == "E032" {
+            // cycles: any definition on a containment cycle; for inheritance loops any interface
+            for (fi2, f) in p.files.iter().enumerate() {
+                let scope = f.module.as_ref().map(|m| m.scope()).unwrap_or_default();
+                for (di, def) in f.defs.iter().enumerate() {
+                    let on = report.on_cycle.contains(&crate::refcheck::join(&scope, def.name()));
+                    let iface_loop = report.rules().contains("R-INHERIT-LOOP") && matches!(def, DefM::Interface(_));
+                    if on || iface_loop {
+                        cands.push(crate::rules::Violation { rule: if on { "R-CYCLE" } else { "R-INHERIT-LOOP" }, code: "E032", at: format!("f{fi2}/d{di}") });
+                    }
+                }
+            }
+        }
+        let cands: Vec<&crate::rules::Violation> = cands.iter().collect();
+        if cands.is_empty() {
+            cx.label(format!("diag-unmatched/{}", d.code));
+            continue;
+        }
+        // best classification over the candidates
+        let mut best = 3usize;
+        let mut best_rule = cands[0].rule;
+        for v in &cands {
+            for lvl in 0..3 {
+                if let Some((vf, a, b)) = region_of(&rendered, &v.at, lvl) {
+                    if vf == fi && a <= *start && *end <= b {
+                        if lvl < best {
+                            best = lvl;
+                            best_rule = v.rule;
+                        }
+                        break;
+                    }
+                }
+            }
+        }
+        judged += 1;
+        let word = ["inside-element", "inside-parent", "inside-grandparent", "elsewhere"][best];
+        cx.label(format!("diag-span/{}/{}/{word}", best_rule, d.code));
+        check!(
+            best == 0,
+            format!("diagnostic-outside-offending-element/{}/{}/{word}", best_rule, d.code),
+            "{} ({:?}) is reported at {start:?}..{end:?} of file {fi}, which is not inside the text of any element that violates the rule; offending: {:?}\n--- file {fi} ---\n{}",
+            d.code,
+            d.message,
+            cands.iter().map(|v| (v.rule, v.at.as_str(), region_of(&rendered, &v.at, 0).map(|r| (r.1, r.2)))).collect::<Vec<_>>(),
+            texts[fi]
+        );
+    }
+    cx.nontrivial = judged >= 1;
+    cx.label_if(judged >= 1, "diagnostic-spans-checked");
+    Ok(())
+}
+
 /// Collects (kind, span) of everything a visitor is shown.
 #[derive(Default)]
 pub struct SpanCollector {
@@ -515,7 +639,7 @@ impl Check for C09 {
         "C09"
     }
     fn rule(&self) -> String {
-        "proptest choice sequences -> well-formed program x token-level layouts (tabs, CRLF, multi-byte characters in comments and string arguments, blank lines, comments between any two tokens); the printer records the character position of every token and the token range of every element, which are the expected spans; oracle: every span of every element / identifier / tag / value / attribute / type expression / doc-comment part reachable through the public API is inside its file, start <= end, tight as the statement says. Non-trivial = the layout has a tab, CRLF or non-ASCII character; distinct by hash of the abstract program".into()
+        "proptest choice sequences -> well-formed program x token-level layouts (tabs, CRLF, multi-byte characters in comments and string arguments, blank lines, comments between any two tokens); the printer records the character position of every token and the token range of every element, which are the expected spans; oracle: every span of every element / identifier / tag / value / attribute / type expression / doc-comment part reachable through the public API is inside its file, start <= end, tight as the statement says. Non-trivial = the layout has a tab, CRLF or non-ASCII character; distinct by hash of the abstract program. Family `diagnostics`: programs with 1..3 injected rule violations (C04's catalogue) in free layouts; every diagnostic/note span is inside its file and ordered, and every error's span lies inside the text (prelude included) of an element the reference rule checker names as violating a rule with that code (non-trivial = at least one such error judged). Family `snippets`: every element span, spans joined from two elements and zero-width positions attached to synthetic diagnostics and notes, written by the real emitter in human format and re-parsed against a reference that computes line numbers, tab-expanded source lines and the underline cell by cell (non-trivial = a multi-line span with a tab or non-ASCII character on an inner line, or a single-line span preceded by one)".into()
     }
     fn assumptions(&self) -> Vec<String> {
         vec![
@@ -526,14 +650,16 @@ impl Check for C09 {
         ]
     }
     fn essential(&self, _tier: Tier) -> Vec<&'static str> {
-        vec!["spans-checked", "tab", "crlf", "non-ascii-before", "prelude-mixed", "op-no-return", "op-single-return", "op-tuple-return", "unchecked", "compact", "idempotent", "tagged", "enumerator-explicit", "type-attribute", "snippets-checked", "multi-line-span/non-ascii-on-inner-line", "multi-line-span/tab-on-inner-line", "single-line-span/non-ascii-before", "single-line-span/tab-before", "zero-width-span"]
+        vec!["spans-checked", "tab", "crlf", "non-ascii-before", "prelude-mixed", "op-no-return", "op-single-return", "op-tuple-return", "unchecked", "compact", "idempotent", "tagged", "enumerator-explicit", "type-attribute", "diagnostic-spans-checked", "snippets-checked", "multi-line-span/non-ascii-on-inner-line", "multi-line-span/tab-on-inner-line", "single-line-span/non-ascii-before", "single-line-span/tab-before", "zero-width-span"]
     }
     fn families(&self, tier: Tier) -> Vec<Family<'_>> {
         let layouts = tier.pick(2, 4);
         let cfg = GenCfg::default();
         let cfg2 = GenCfg::default();
+        let cfg3 = GenCfg::default();
         vec![
             Family::bytes("programs", 600, tier.pick(4_000, 60_000), move |cx, i| case(cx, i, layouts, &cfg)),
+            Family::bytes("diagnostics", 500, tier.pick(3_000, 50_000), move |cx, i| diagnostics_case(cx, i, &cfg3)),
             Family::bytes("snippets", 600, tier.pick(1_500, 25_000), move |cx, i| snippets_case(cx, i, &cfg2)),
             // regression inputs: the bytes are a source text; model-free span check
             Family::replay_only("direct", |cx, i| {
